@@ -381,6 +381,11 @@ def families():
         for (lo, hi, lazy) in quants:
             for Y in pool_y:
                 out.append((seq([rep(X, lo, hi, lazy), Y]), '', ['a', 'b', 'c'], 4))
+    # X{q} (?:Y z?)+ c : a quantified term before a repeated group whose body starts with a mandatory, overlapping term
+    for X in (a, cls(['a', 'b'])):
+        for (lo, hi, lazy) in ((0, None, False), (1, None, False), (0, None, True)):
+            for body in ([a, rep(b, 0, 1, False)], [cls(['a', 'b']), rep(c, 0, 1, False)], [a, b]):
+                out.append((seq([rep(X, lo, hi, lazy), rep(grp(seq(list(body)), False), 1, None, False), c]), '', ['a', 'b', 'c'], 5))
     # alternation: branch order, single characters after longer branches
     for br in ([[a], [b, c], [b]], [[a, b], [a]], [[a], [a, b]], [[b], [b, c], [a]], [[a, b, c], [a, b], [a]]):
         out.append((alt([seq(list(x_)) for x_ in br]), '', ['a', 'b', 'c'], 4))
@@ -407,8 +412,32 @@ def families():
                 alt([seq([xx, nc([g(a)], [b]), y]), seq([xx, a, g(z)])]), seq([xx, nc([g(a)], [g(b)]), y]), nc([g(a), b], [a, g(c)]),
                 seq([nc([g(a), xx], []), g(a), y]) if False else seq([rep(grp(seq([g(a), xx]), False), 0, 1, False), g(a), y]),
                 seq([rep(grp(seq([xx, nc([g(a)], [b]), y]), False), 1, None, False), xx, a, z])]
+    # a sequence that starts with a greedy quantified group, fails as a whole, and the match goes another way
+    out.append((seq([N('bol'), rep(nc([rep(g(a), 0, None, False), xx], [a, b]), 1, None, False), N('eol')]), '', ['a', 'b', 'x'], 5))
+    out.append((seq([N('bol'), nc([rep(g(a), 0, None, False), xx], [rep(a, 0, None, False), y]), N('eol')]), '', ['a', 'x', 'y'], 5))
+    out.append((seq([nc([rep(g(a, b), 1, None, False), c], [a, rep(b, 0, None, False)]), g(c)]), '', ['a', 'b', 'c'], 5))
     for n in grp_pats:
         out.append((n, '', ['a', 'x', 'y', 'z'] if has_lit(n, 'x') else ['a', 'b', 'c', 'd'] if has_lit(n, 'd') else ['a', 'b', 'c'], 5 if not has_lit(n, 'x') else 4))
+    # negated group with subtraction (C09): [^G-[S]] = (not G) minus S
+    for n in (cls(['a'], neg=True, sub=['b']), cls([('a', 'b')], neg=True, sub=['c']), cls(['b'], neg=True, sub=[('a', 'c')])):
+        out.append((n, '', ['a', 'b', 'c', 'd'], 2))
+        out.append((seq([N('bol'), rep(n, 1, None, False), N('eol')]), '', ['a', 'b', 'c', 'd'], 3))
+    # a start anchor followed by groups that hold sequences (positional preconditions of nested terms)
+    d = lit('d')
+    for n in (seq([bol, a, g(rep(b, 1, None, False), c)]), seq([bol, rep(a, 0, None, False), g(rep(b, 1, None, False), c)]),
+              seq([bol, rep(a, 1, None, False), g(b, c), eol]), seq([bol, a, rep(grp(seq([rep(b, 1, None, False), c]), False), 1, None, False), d]),
+              seq([bol, rep(cls([('a', 'b')]), 1, None, False), g(c, rep(d, 1, None, False)), eol])):
+        for fl in ('', 'm', 's'):
+            out.append((n, fl, ['a', 'b', 'c', 'd'], 5))
+    # a repeat first, then an upper-case literal, under flag i (literal preconditions of the search loop)
+    A = lit('A')
+    for X in (b, cls(['a', 'b']), cls([('0', '1')])):
+        for (lo, hi) in ((0, None), (1, None), (1, 2)):
+            for Y in (A, seq([lit('K'), lit('g')]), nc([A], [c])):
+                out.append((seq([rep(X, lo, hi, False), Y]), 'i', ['a', 'A', 'b', 'k', 'G', '0'] if Y.k == 'seq' else ['a', 'A', 'b'], 3 if Y.k == 'seq' else 4))
+    # a pattern that starts with a repeat, searched repeatedly along the input (every later search starts mid-input)
+    for n in (rep(b, 1, None, False), rep(cls(['b', 'c']), 1, None, False), seq([rep(b, 1, None, False), a]), seq([grp(rep(b, 2, 2, False), True), a])):
+        out.append((n, '', ['a', 'b'], 6))
     # r{0}, r{0,0}: the group still counts
     out.append((seq([rep(g(a), 0, 0, False), g(b)]), '', ['a', 'b', 'c'], 4))
     out.append((seq([g(a), rep(g(b), 0, 0, False), g(c)]), '', ['a', 'b', 'c'], 4))
@@ -629,6 +658,8 @@ def check_case(c, r, pids):
         fails.append(('C01', 'is_match', str(exp).lower(), r.get('is_match')))
     null = pre.fullmatch('') is not None if not brefs else nullable(node)
     rep_res = r.get('replace', '')
+    if not fragile and '\x1e' in r.get('tokens', '') and inp != '':
+        fails.append(('C06', 'tokenize yields more than len+1 tokens', '<= len+1 tokens (or an error)', r.get('tokens', '')[:60]))
     if fragile and (null or any(r.get(op, '').startswith('ERR:MatchesEmptyString') for op in ('replace', 'tokens', 'analyze'))):
         return fails      # whether the engine finds the empty match of such a pattern is part of the recorded findings
     if null:
@@ -880,18 +911,43 @@ def search(pids, repo, tier='quick', seed=0, log=None):
         xsd_reject = [('a+?b', ''), ('a*?', ''), ('a??b', ''), ('a{1,2}?', ''), ('(?:ab)c', ''), ('(a)\\1', ''), ('a\\$', '')]
         for fl in ['q', 'qi', 'iq', 'q;', 'q;k', 'iq;g', 'qi;K', 'sq;gk']:
             xsd_reject.append(('a.b', fl))
-        dres = probe.run([('xsd', fl, pat, 'ab', 'X') for (pat, fl) in xsd_reject])
+        # every XSD case is preceded, in the same process, by the XPath compilation of the same pattern and flags (and the
+        # other way round for the anchor cases): what one dialect compiled must not leak into the other
+        batch = []
+        for (pat, fl) in xsd_reject:
+            batch.append(('xpath', fl, pat, 'ab', 'X'))
+            batch.append(('xsd', fl, pat, 'ab', 'X'))
+        dres = probe.run(batch)[1::2]
         for (pat, fl), r in zip(xsd_reject, dres):
             if r is not None and not r.get('compile', '').startswith('ERR'):
-                fails.append({'pid': 'C17', 'pids': ['C17'] + (['C13'] if 'q' in fl else []), 'what': 'Regex::xsd accepts an XPath extension', 'dialect': 'xsd', 'pattern': pat,
+                fails.append({'pid': 'C17', 'pids': ['C17'] + (['C13'] if 'q' in fl else []), 'what': 'Regex::xsd accepts an XPath extension (after Regex::xpath compiled the same pattern)', 'dialect': 'xsd', 'pattern': pat,
                               'flags': fl, 'input': 'ab', 'expected': 'an error', 'actual': r.get('compile', '?')})
+        anchor_cases = [('xpath', '^rs$', 'rs', True), ('xsd', '^rs$', 'rs', False), ('xsd', '^rs$', '^rs$', True), ('xpath', '^rs$', '^rs$', False),
+                        ('xsd', 'tu$', 'tu$', True), ('xpath', 'tu$', 'tu', True), ('xpath', 'tu$', 'tu$', False), ('xsd', 'tu$', 'tu', False)]
+        ares = probe.run([(dl, '', pat, inp, 'X') for (dl, pat, inp, exp) in anchor_cases])
+        for (dl, pat, inp, exp), r in zip(anchor_cases, ares):
+            if r is not None and r.get('is_match') != str(exp).lower():
+                fails.append({'pid': 'C17', 'pids': ['C17', 'C12'], 'what': '^ and $ are anchors under XPath and ordinary characters under XSD', 'dialect': dl, 'pattern': pat,
+                              'flags': '', 'input': inp, 'expected': 'is_match ' + str(exp).lower(), 'actual': 'compile %s is_match %s' % (r.get('compile'), r.get('is_match'))})
+        # C19: a back-reference to a group that the selected path did not go through matches the empty string
+        explicit = [('(?:(a)b|a)\\1', 'a', True), ('^(?:a(b)|ab)\\1$', 'ab', True), ('^(?:(x)y|x)\\1-$', 'x-', True), ('^(?:(a)b|a)\\1c$', 'ac', True),
+                    ('^(?:(a)b|a)\\1c$', 'aac', False), ('^(a)?b\\1$', 'b', True), ('^(a)?b\\1$', 'aba', True), ('^(a)?b\\1$', 'ab', False)]
+        eres = probe.run([('xpath', '', pat, inp, 'X') for (pat, inp, exp) in explicit])
+        for (pat, inp, exp), r in zip(explicit, eres):
+            if r is not None and r.get('is_match') != str(exp).lower():
+                fails.append({'pid': 'C19', 'pids': ['C19', 'C03', 'C01'], 'what': 'back-reference to a group outside the selected path', 'dialect': 'xpath', 'pattern': pat.replace('\\\\', '\\'),
+                              'flags': '', 'input': inp, 'expected': 'is_match ' + str(exp).lower(), 'actual': 'compile %s is_match %s' % (r.get('compile'), r.get('is_match'))})
         # C07: malformed patterns are rejected with Error::Syntax (each one leaves the grammar in one identifiable way)
         malformed = ['a{3,2}', '(a*){3,2}', '(a|){2,1}', '^{2,1}a', 'a${3,1}', '(', ')', 'a)', '(a', '[', '[a', 'a]', '[]', '[b-a]', 'a**', '*a', '+', '?a',
                      'a|*', '(*a)', 'a{2', 'a{,2}', 'a{x}', '\\q', '\\', 'a\\', '\\1', '(a)\\2', '(a\\1)', '[\\1]', '\\p{Foo}', '\\p{IsFoo}', '\\p{Lu',
-                     '\\p{Is Basic Latin}', '\\p{IsBasic_Latin}', '\\p{L u}', '[a-\\d]', '\\0']
+                     '\\p{Is Basic Latin}', '\\p{IsBasic_Latin}', '\\p{L u}', '[a-\\d]', '\\0',
+                     '\\p{L\xe9}', '\\p{\xe9}', '\\P{\u20ac}', '\\p{Is\xe9}', '[\\p{L\xe9}]', '\\p{LC}', '\\P{LC}', '\\p{Cs}', '\\p{L&}', '\\p{lu}', '\\p{Letter}', '\\p{Lx}', '\\p{}', '\\p{I}']
         mres = probe.run([('xpath', '', pat, 'a', 'X') for pat in malformed])
         for pat, r in zip(malformed, mres):
-            if r is not None and not r.get('compile', '').startswith('ERR:Syntax'):
+            if r is not None and r.get('PANIC'):
+                fails.append({'pid': 'C05', 'pids': ['C05', 'C07'], 'what': 'compiling a malformed pattern panics', 'dialect': 'xpath', 'pattern': pat,
+                              'flags': '', 'input': 'a', 'expected': 'ERR:Syntax', 'actual': 'panic'})
+            elif r is not None and not r.get('compile', '').startswith('ERR:Syntax'):
                 fails.append({'pid': 'C07', 'pids': ['C07'], 'what': 'a malformed pattern is not rejected with Error::Syntax', 'dialect': 'xpath', 'pattern': pat,
                               'flags': '', 'input': 'a', 'expected': 'ERR:Syntax', 'actual': r.get('compile', '?')})
         for fl in ['z', 'ii z', 'a', 'mz', ';z', 'sX']:
@@ -911,16 +967,23 @@ def search(pids, repo, tier='quick', seed=0, log=None):
                    ('\\p{IsBasicLatin}', lambda ch: ord(ch) <= 0x7f), ('\\P{IsBasicLatin}', lambda ch: ord(ch) > 0x7f), ('\\p{IsLatin-1Supplement}', lambda ch: 0x80 <= ord(ch) <= 0xff),
                    ('\\p{So}', lambda ch: cat(ch) == 'So'), ('\\p{Lo}', lambda ch: cat(ch) == 'Lo'), ('\\p{Sm}', lambda ch: cat(ch) == 'Sm'), ('\\p{Pd}', lambda ch: cat(ch) == 'Pd')]
         catchars = ['\x01', '\t', ' ', '~', '\x7f', '\x80', '\xa0', '\xff', '\u0100', '\u212a', '\u2028', '\u2029', '\ue000', '\ufffd', '\U00010000', 'a', 'Z', '5', '-', '+', '_']
-        ccases = [(pat, pred, ch) for (pat, pred) in catpats for ch in catchars]
-        cres2 = probe.run([('xpath', '', '^' + pat + '$', ch, 'X') for (pat, pred, ch) in ccases])
-        for (pat, pred, ch), r in zip(ccases, cres2):
+        ccases = [(pat, pred, ch, '') for (pat, pred) in catpats for ch in catchars]
+        # inside a bracket group, with and without flag i: a category escape denotes its category and nothing else
+        for (pat, pred) in [('[\\p{Lu}]', lambda ch: cat(ch) == 'Lu'), ('[^\\p{Lu}]', lambda ch: cat(ch) != 'Lu'), ('[\\p{Ll}]', lambda ch: cat(ch) == 'Ll'),
+                            ('[\\d-]', lambda ch: cat(ch) == 'Nd' or ch == '-'), ('[\\p{IsBasicLatin}]', lambda ch: ord(ch) <= 0x7f), ('[\\P{L}]', lambda ch: cat(ch)[0] != 'L')]:
+            for fl in ('', 'i'):
+                for ch in catchars + ['m', 'M', 'k', 'K']:
+                    ccases.append((pat, pred, ch, fl))
+        cres2 = probe.run([('xpath', fl, '^' + pat + '$', ch, 'X') for (pat, pred, ch, fl) in ccases])
+        for (pat, pred, ch, fl), r in zip(ccases, cres2):
             if r is not None and r.get('is_match') != str(bool(pred(ch))).lower():
-                fails.append({'pid': 'C10', 'pids': ['C10', 'C09'], 'what': 'membership of U+%04X in %s' % (ord(ch), pat.replace('\\\\', '\\')), 'dialect': 'xpath', 'pattern': '^' + pat + '$',
-                              'flags': '', 'input': ch, 'expected': 'is_match ' + str(bool(pred(ch))).lower(), 'actual': 'compile %s is_match %s' % (r.get('compile'), r.get('is_match'))})
+                fails.append({'pid': 'C10', 'pids': ['C10', 'C09'] + (['C11'] if fl else []), 'what': 'membership of U+%04X in %s' % (ord(ch), pat.replace('\\\\', '\\')), 'dialect': 'xpath', 'pattern': '^' + pat + '$',
+                              'flags': fl, 'input': ch, 'expected': 'is_match ' + str(bool(pred(ch))).lower(), 'actual': 'compile %s is_match %s' % (r.get('compile'), r.get('is_match'))})
         # C14: flag x removes exactly TAB, LF, CR and SPACE outside character classes
         xcases = [('a\x0cb', 'x', 'a\x0cb', True), ('a\x0cb', 'x', 'ab', False), ('a b', 'x', 'ab', True), ('a b', 'x', 'a b', False), ('a\tb\r\nc', 'x', 'abc', True),
                   ('[ ]', 'x', ' ', True), ('[ ]', 'x', '', False), ('a[ b]c', 'x', 'a c', True), ('a\x0bb', 'x', 'a\x0bb', True), ('a\xa0b', 'x', 'a\xa0b', True),
-                  ('a\u2003b', 'x', 'ab', False), ('( a | b ) c', 'x', 'bc', True), ('a b', 'qx', 'a b', True), ('a b', 'qx', 'ab', False)]
+                  ('a\u2003b', 'x', 'ab', False), ('( a | b ) c', 'x', 'bc', True), ('a b', 'qx', 'a b', True), ('a b', 'qx', 'ab', False),
+                  ('[a\\\\] b', 'x', 'ab', True), ('[a\\\\] b', 'x', 'a b', False), ('\\\\[ab] c', 'x', '\\ac', True), ('\\\\[ ]', 'x', '\\ ', True), ('\\[ a', 'x', '[a', True)]
         xres = probe.run([('xpath', fl, pat, inp, 'X') for (pat, fl, inp, exp) in xcases])
         for (pat, fl, inp, exp), r in zip(xcases, xres):
             if r is not None and r.get('is_match') != str(exp).lower():
@@ -956,7 +1019,7 @@ def search(pids, repo, tier='quick', seed=0, log=None):
                 i += 1
             return out
         ten = ''.join('(%s)' % ch for ch in 'abcdefghij')
-        rpats = [('(a)(b)?', 2, 'xabyaz'), ('(a){0}(b)', 2, 'xbx'), (ten, 10, '-abcdefghij-'), ('(a)(b)(c)(d)(e)(f)(g)(h)(i){0}(j)', 10, '-abcdefghj-'), ('a', 0, 'banana'), ('(a)|b', 1, 'abc')]
+        rpats = [('(a)(b)?', 2, 'xabyaz'), ('(a){0}(b)', 2, 'xbx'), (ten, 10, '-abcdefghij-'), ('(a)(b)(c)(d)(e)(f)(g)(h)(i){0}(j)', 10, '-abcdefghj-'), ('a', 0, 'banana'), ('(a)|b', 1, 'abc'), ('(a)(b)', 2, 'xyz'), ('a', 0, ''), ('(a)', 1, 'xyz')]
         repls = ['$1', '[$1|$2]', '$2', '$10', '$11', '$0', '\\$', '\\\\', 'x$', '\\x', '$a', '$1$1', '<$0>$3', '$9x', '$01']
         rcases = [(pat, ng, inp, rp) for (pat, ng, inp) in rpats for rp in repls]
         rres = probe.run([('xpath', '', pat, inp, rp) for (pat, ng, inp, rp) in rcases])
@@ -1055,6 +1118,8 @@ def failure_pids(f, node):
     out = {base}
     if base in ('C01', 'C02'):
         out |= {'C08', 'C20'} | feature_pids(node, f['flags'])
+        if base == 'C02':
+            out |= {'C04'}      # the pieces between consecutive matches are the tokens / the analyze entries
     if base == 'C04':
         out |= {'C02'}
     if base == 'C20':
